@@ -43,6 +43,13 @@ type (
 		mtx  sync.RWMutex
 		keys []keyCache
 
+		// batchPending is set by AddMPTBatch and cleared by UpdateCurrentLocal.
+		// AddMPTBatch works on a shallow copy of mpt which shares in-memory
+		// nodes and the reference counter cache with it, so if a batch was
+		// computed but never committed, mpt can no longer be trusted and is
+		// re-read from the store.
+		batchPending bool
+
 		updateValidatorsCb func(height uint32, publicKeys keys.PublicKeys)
 	}
 
@@ -334,6 +341,14 @@ func (s *Module) GC(index uint32, store storage.Store) time.Duration {
 
 // AddMPTBatch updates using provided batch.
 func (s *Module) AddMPTBatch(index uint32, b mpt.Batch, cache *storage.MemCachedStore) (*mpt.Trie, *state.MPTRoot, error) {
+	if s.batchPending {
+		if root := s.CurrentLocalStateRoot(); root.Equals(util.Uint256{}) {
+			s.mpt = mpt.NewTrie(nil, s.mode, s.Store)
+		} else {
+			s.mpt = mpt.NewTrie(mpt.NewHashNode(root), s.mode, s.Store)
+		}
+	}
+	s.batchPending = true
 	mpt := *s.mpt
 	mpt.Store = cache
 	if _, err := mpt.PutBatch(b); err != nil {
@@ -351,6 +366,7 @@ func (s *Module) AddMPTBatch(index uint32, b mpt.Batch, cache *storage.MemCached
 // UpdateCurrentLocal updates local caches using provided state root.
 func (s *Module) UpdateCurrentLocal(mpt *mpt.Trie, sr *state.MPTRoot) {
 	s.mpt = mpt
+	s.batchPending = false
 	s.currentLocal.Store(sr.Root)
 	s.localHeight.Store(sr.Index)
 	if s.srInHead {
